@@ -389,6 +389,12 @@ pub fn cases_pairs_c15(tier: &str, stats: &mut Stats, out: &mut Out) {
     for k in 0..=n {
         alphabet.push(('s', k));
     }
+    for (nn, k) in [(4usize, 1usize), (4, 3), (5, 2), (3, 7)] {
+        for base in ["Point", "Polyline"] {
+            let id = out.oracle_only_id();
+            out.verdict(&id, &format!("scenario reader-pairs-noshx {} {} {}", base, nn, k), oracle_c15_pairs_noshx(base, nn, k));
+        }
+    }
     let max_len = if tier == "thorough" { 4 } else { 3 };
     let mut files: std::collections::HashMap<&str, (Vec<u8>, Vec<u8>)> = std::collections::HashMap::new();
     for base in ["Point", "Polyline"] {
@@ -459,6 +465,44 @@ pub fn oracle_path_overwrite(n_old: usize, n_new: usize) -> Verdict {
         Ok(Ok(())) => Verdict::pass(),
         Ok(Err(e)) => Verdict::fail("path-stale-bytes", e),
         Err(e) => Verdict::fail("path-panic", panic_msg(&e)),
+    }
+}
+
+/// C15 on the complete Reader WITHOUT an index: seek(k) is refused and must leave shapes and rows where
+/// they were: the iteration that follows yields the aligned pairs from the first one
+pub fn oracle_c15_pairs_noshx(base: &str, n: usize, k: usize) -> Verdict {
+    let good: Vec<PairOp> = (0..n).map(|_| PairOp::Good).collect();
+    let run = match run_pairs(base, &good) {
+        Ok(r) => r,
+        Err(e) => return Verdict::fail("reader-pairs-panic", e),
+    };
+    let r = catch_unwind(AssertUnwindSafe(|| -> Result<(), String> {
+        let sr = ShapeReader::new(Cursor::new(run.shp.clone())).map_err(|e| show_err(&e))?;
+        let dr = dbase::Reader::new(Cursor::new(run.dbf.clone())).map_err(|e| format!("dbase {:?}", e))?;
+        let mut rdr = Reader::new(sr, dr);
+        if rdr.seek(k).is_ok() {
+            return Err(format!("seek({}) on a reader without index succeeded", k));
+        }
+        let mut got = vec![];
+        for item in rdr.iter_shapes_and_records() {
+            let (s, row) = item.map_err(|e| show_err(&e))?;
+            let q = shape_q(&s).ok_or("unexpected shape")?;
+            let idx = match row.get("idx") {
+                Some(dbase::FieldValue::Numeric(Some(v))) => *v as usize,
+                other => return Err(format!("row without idx: {:?}", other)),
+            };
+            got.push((q, idx));
+        }
+        let want: Vec<(usize, usize)> = (0..n).map(|i| (i, i)).collect();
+        if got != want {
+            return Err(format!("after the refused seek({}) the iteration yields (shape, row) = {:?}", k, got));
+        }
+        Ok(())
+    }));
+    match r {
+        Ok(Ok(())) => Verdict::pass(),
+        Ok(Err(e)) => Verdict::fail("reader-pairs-misaligned", e),
+        Err(e) => Verdict::fail("reader-pairs-panic", panic_msg(&e)),
     }
 }
 
@@ -609,6 +653,10 @@ pub fn cases_dbf(tier: &str, rng: &mut Rng, stats: &mut Stats, out: &mut Out) {
     for n in [0usize, 1, 2, 5] {
         let id = out.oracle_only_id();
         out.verdict(&id, &format!("scenario path-pairs {}", n), oracle_c08_path(n));
+    }
+    {
+        let id = out.oracle_only_id();
+        out.verdict(&id, "scenario paged Point 1500 700", oracle_c08_paged("Point", 1500, 700));
     }
     for (n, k) in [(5usize, 2usize), (4, 1), (3, 3), (6, 0), (2, 1)] {
         for base in ["Point", "Polyline"] {
